@@ -28,6 +28,7 @@ def run(ctx):
     ctx.guard(rule_a, ctx, ix)
     ctx.guard(rule_b, ctx, ix)
     ctx.guard(rule_c, ctx, ix)
+    ctx.guard(rule_d, ctx, ix)
 
 
 def rule_a(ctx, ix):
@@ -87,10 +88,16 @@ def rule_b(ctx, ix):
     init = {data_p: frozenset('L'), view_p: frozenset('L'), other: frozenset('R'), c1: frozenset('L'), c2: frozenset('R')}
 
     def classify(expr, state):
+        # a dtype computed from both sides is not key data: it carries no role, and casting keeps the role of the array cast
+        if isinstance(expr, ast.Call) and call_name(expr) in ('result_type', 'promote_types', 'common_type', 'find_common_type'):
+            return set()
+        if isinstance(expr, ast.Call) and isinstance(expr.func, ast.Attribute) and expr.func.attr == 'astype':
+            return classify(expr.func.value, state)
         tags = set()
-        for n in ast.walk(expr):
-            if isinstance(n, ast.Name) and n.id in state:
-                tags |= {x for x in state[n.id] if x in ('L', 'R')}
+        for n in ast.iter_child_nodes(expr):
+            tags |= classify(n, state)
+        if isinstance(expr, ast.Name) and expr.id in state:
+            tags |= {x for x in state[expr.id] if x in ('L', 'R')}
         return tags
     sinks = []
 
@@ -217,3 +224,54 @@ def rule_c(ctx, ix):
     ok = any('IncompatibleAttribute' in unparse(h.type) and any(isinstance(x, ast.Continue) for x in h.body) for h in hs if h.type is not None)
     ctx.ob(R, f.construct, 'an incompatible selection on the other dataset moves on to the next join', ok,
            detail='IncompatibleAttribute from the other dataset does not `continue` to the next join', where=f.where)
+
+
+def rule_d(ctx, ix):
+    """Keys compared by their raw bytes must be stored with one dtype on both sides of the join."""
+    R = 'C11.d'
+    ctx.describe(R, 'byte-level (concatenated) keys: each pair of key columns is brought to a common dtype first', floor=2)
+    ca = ix.func('glue.core.joins.concatenate_arrays')
+    bytewise = any(isinstance(c, ast.Call) and call_name(c) == 'view' and c.args and 'S' in unparse(c.args[0]) for c in ast.walk(ca.node))
+    ctx.ob(R, ca.construct, 'the concatenated key is compared as raw bytes (read from the code: %s)' % bytewise, True, nontrivial=False)
+    f = ix.func('glue.core.joins.get_mask_with_key_joins')
+    calls = [c for c in calls_in(f.node) if call_name(c) == 'concatenate_arrays']
+    if len(calls) != 2:
+        raise AnalysisError('get_mask_with_key_joins: the two concatenate_arrays calls are not recognised')
+    if not bytewise:
+        ctx.unmodelled(R, f.construct, 'concatenate_arrays no longer compares raw bytes: dtype agreement not needed')
+        return
+    lists = [unparse(c.args[0].value) for c in calls if c.args and isinstance(c.args[0], ast.Starred)]
+    if len(lists) != 2:
+        raise AnalysisError('get_mask_with_key_joins: the key lists handed to concatenate_arrays are not recognised')
+    apps = {}
+    for c in calls_in(f.node):
+        if call_name(c) == 'append' and unparse(c.func.value) in lists and c.args:
+            apps.setdefault(unparse(c.func.value), []).append(c)
+    if any(len(apps.get(l, [])) != 1 for l in lists):
+        raise AnalysisError('get_mask_with_key_joins: one append per key list expected, found %s' % {k: len(v) for k, v in apps.items()})
+    a, b = apps[lists[0]][0], apps[lists[1]][0]
+
+    def cast_of(call):
+        e = call.args[0]
+        # follow one local name
+        if isinstance(e, ast.Name):
+            defs = [st for st in walk_no_nested(f.node) if isinstance(st, ast.Assign) and unparse(st.targets[0]) == e.id and st.lineno < call.lineno]
+            e = defs[-1].value if defs else e
+        for x in ast.walk(e):
+            if isinstance(x, ast.Call) and call_name(x) == 'astype' and x.args:
+                return unparse(x.args[0])
+        return None
+    ca_, cb_ = cast_of(a), cast_of(b)
+    common_src = None
+    if ca_ and ca_ == cb_:
+        defs = [st for st in walk_no_nested(f.node) if isinstance(st, ast.Assign) and unparse(st.targets[0]) == ca_]
+        for st in defs:
+            if isinstance(st.value, ast.Call) and call_name(st.value) in ('result_type', 'promote_types', 'common_type', 'find_common_type') \
+                    and len(st.value.args) == 2:
+                common_src = unparse(st.value)
+    ctx.idiom(R, f.construct + ' n-n keys', 'both columns of a key pair are cast to their common dtype before the bytes are compared',
+              accepted=common_src is not None, absent=ca_ is None and cb_ is None,
+              detail_absent='get_mask_with_key_joins concatenates the key columns with the dtypes they happen to be stored with and compares '
+                            'the raw bytes: equal key values stored as int32 / int64, or as strings of different widths, never match, so '
+                            'an n-n join between such columns selects nothing',
+              shape='casts: %s / %s' % (ca_, cb_), where=where(f, a))
